@@ -1,5 +1,5 @@
 (* GENERATED on every run by py/verif/imp_translate.py from /repo/sylvia/src/utils.rs and
-   /repo/sylvia/src/builder/instantiate.rs (syn dump of the probe). Do not edit. *)
+   /repo/sylvia/src/builder/instantiate.rs, types.rs, ctx.rs (syn dump of the probe). Do not edit. *)
 From Coq Require Import String List.
 Require Import SV.Model.Imp.
 Import ListNotations.
@@ -32,3 +32,43 @@ Definition builder_program : program :=
      fn_body := (EBlock [STail (ERecord "WasmMsg::Instantiate2" [("code_id", (EField (EVar "self") "code_id")); ("msg", (EField (EVar "self") "msg")); ("admin", (EField (EVar "self") "admin")); ("label", (ECall "unwrap_or_default_string" [(EField (EVar "self") "label")])); ("funds", (EField (EVar "self") "funds")); ("salt", (EVar "salt"))] None)]) |} ].
 
 Definition builder_fields : list string := ["msg"; "code_id"; "admin"; "label"; "funds"].
+
+(* sylvia/src/types.rs: ExecutorBuilder (both type states) and the helpers of Remote *)
+Definition types_program : program :=
+  [ {| fn_name := "ExecutorBuilder[Empty]::new"; fn_params := ["contract"]; fn_consts := [];
+     fn_body := (EBlock [STail (ERecord "ExecutorBuilder" [("contract", (ECall "to_string" [(EVar "contract")])); ("funds", (EArr [])); ("msg", (ECall "Binary::default" [])); ("_state", (ECon "marker::PhantomData" []))] None)]) |};
+    {| fn_name := "ExecutorBuilder::with_funds"; fn_params := ["self"; "funds"]; fn_consts := [];
+     fn_body := (EBlock [STail (ERecord "ExecutorBuilder" [("funds", (EVar "funds"))] (Some (EVar "self")))]) |};
+    {| fn_name := "ExecutorBuilder::funds"; fn_params := ["self"]; fn_consts := [];
+     fn_body := (EBlock [STail (EField (EVar "self") "funds")]) |};
+    {| fn_name := "ExecutorBuilder::contract"; fn_params := ["self"]; fn_consts := [];
+     fn_body := (EBlock [STail (EField (EVar "self") "contract")]) |};
+    {| fn_name := "ExecutorBuilder[Ready]::new"; fn_params := ["contract"; "funds"; "msg"]; fn_consts := [];
+     fn_body := (EBlock [STail (ERecord "ExecutorBuilder" [("contract", (EVar "contract")); ("funds", (EVar "funds")); ("msg", (EVar "msg")); ("_state", (ECon "marker::PhantomData" []))] None)]) |};
+    {| fn_name := "ExecutorBuilder[Ready]::build"; fn_params := ["self"]; fn_consts := [];
+     fn_body := (EBlock [STail (ERecord "WasmMsg::Execute" [("contract_addr", (EField (EVar "self") "contract")); ("msg", (EField (EVar "self") "msg")); ("funds", (EField (EVar "self") "funds"))] None)]) |};
+    {| fn_name := "Remote::new"; fn_params := ["addr"]; fn_consts := [];
+     fn_body := (EBlock [STail (ERecord "Remote" [("addr", (ECon "Cow::Owned" [(EVar "addr")])); ("_phantom", (ECon "marker::PhantomData" []))] None)]) |};
+    {| fn_name := "Remote::borrowed"; fn_params := ["addr"]; fn_consts := [];
+     fn_body := (EBlock [STail (ERecord "Remote" [("addr", (ECon "Cow::Borrowed" [(EVar "addr")])); ("_phantom", (ECon "marker::PhantomData" []))] None)]) |};
+    {| fn_name := "Remote::executor"; fn_params := ["self"]; fn_consts := [];
+     fn_body := (EBlock [STail (ECall "ExecutorBuilder[Empty]::new" [(EField (EVar "self") "addr")])]) |};
+    {| fn_name := "Remote::update_admin"; fn_params := ["self"; "new_admin"]; fn_consts := [];
+     fn_body := (EBlock [STail (ERecord "WasmMsg::UpdateAdmin" [("contract_addr", (ECall "to_string" [(EField (EVar "self") "addr")])); ("admin", (ECall "to_string" [(EVar "new_admin")]))] None)]) |};
+    {| fn_name := "Remote::clear_admin"; fn_params := ["self"]; fn_consts := [];
+     fn_body := (EBlock [STail (ERecord "WasmMsg::ClearAdmin" [("contract_addr", (ECall "to_string" [(EField (EVar "self") "addr")]))] None)]) |} ].
+
+(* sylvia/src/ctx.rs: the conversions of the entry-point argument tuples into the handler contexts *)
+Definition ctx_program : program :=
+  [ {| fn_name := "MigrateCtx::from"; fn_params := ["arg0"]; fn_consts := [];
+     fn_body := (EBlock [SLet (PCon "()" [(PVar "deps"); (PVar "env")]) (EVar "arg0"); STail (EBlock [STail (ERecord "MigrateCtx" [("deps", (EVar "deps")); ("env", (EVar "env"))] None)])]) |};
+    {| fn_name := "ReplyCtx::from"; fn_params := ["arg0"]; fn_consts := [];
+     fn_body := (EBlock [SLet (PCon "()" [(PVar "deps"); (PVar "env"); (PVar "gas_used"); (PVar "events"); (PVar "msg_responses")]) (EVar "arg0"); STail (EBlock [STail (ERecord "ReplyCtx" [("deps", (EVar "deps")); ("env", (EVar "env")); ("gas_used", (EVar "gas_used")); ("events", (EVar "events")); ("msg_responses", (EVar "msg_responses"))] None)])]) |};
+    {| fn_name := "ExecCtx::from"; fn_params := ["arg0"]; fn_consts := [];
+     fn_body := (EBlock [SLet (PCon "()" [(PVar "deps"); (PVar "env"); (PVar "info")]) (EVar "arg0"); STail (EBlock [STail (ERecord "ExecCtx" [("deps", (EVar "deps")); ("env", (EVar "env")); ("info", (EVar "info"))] None)])]) |};
+    {| fn_name := "InstantiateCtx::from"; fn_params := ["arg0"]; fn_consts := [];
+     fn_body := (EBlock [SLet (PCon "()" [(PVar "deps"); (PVar "env"); (PVar "info")]) (EVar "arg0"); STail (EBlock [STail (ERecord "InstantiateCtx" [("deps", (EVar "deps")); ("env", (EVar "env")); ("info", (EVar "info"))] None)])]) |};
+    {| fn_name := "QueryCtx::from"; fn_params := ["arg0"]; fn_consts := [];
+     fn_body := (EBlock [SLet (PCon "()" [(PVar "deps"); (PVar "env")]) (EVar "arg0"); STail (EBlock [STail (ERecord "QueryCtx" [("deps", (EVar "deps")); ("env", (EVar "env"))] None)])]) |};
+    {| fn_name := "SudoCtx::from"; fn_params := ["arg0"]; fn_consts := [];
+     fn_body := (EBlock [SLet (PCon "()" [(PVar "deps"); (PVar "env")]) (EVar "arg0"); STail (EBlock [STail (ERecord "SudoCtx" [("deps", (EVar "deps")); ("env", (EVar "env"))] None)])]) |} ].
